@@ -223,7 +223,7 @@ Proof. exact is_string_regex_spec. Qed.
    toCharArray, split, rightSplit, characters, regex split return a yaql list (never a mutable Python list,
    which is not a yaql value), searchAll a lazy sequence; finalised: a list by default, a tuple for a list
    when yaql.convertTuplesToLists is off (legacy engine).  On the current tree split / rightSplit / regex
-   split return a Python list: known finding F23 (harness classifies exactly that class). *)
+   split returned a Python list (F23, fixed by 808fb38); any function doing so is a VIOLATION. *)
 Theorem C19_collection_kinds : forall f,
   result_kind f <> RKList /\ result_kind f <> RKOther /\
   finalised true (result_kind f) = FKList /\
